@@ -18,7 +18,8 @@ CONSTANTS Targets,   \* target channel ids
           Cap        \* [Targets -> Nat] capacity of the target channel
 
 VARIABLES
-  reg,       \* set of subscriptions [key, t, ctx]  (ctx = 0: none)
+  reg,       \* set of subscriptions [key, t, ctx, auto]  (ctx = 0: none; auto: made by SubscribeCancel, i.e. the
+             \* library itself unsubscribes it once its context is cancelled)
   inflight,  \* [publisher -> [key, v, vt, pending, pctx]] for publishes in progress (function with dynamic domain)
   queue,     \* [Targets -> sequence of values sent to the target and not yet received]
   ctxc,      \* set of cancelled context ids
@@ -37,10 +38,10 @@ Init == reg = {} /\ inflight = <<>> /\ queue = [t \in Targets |-> <<>>] /\ ctxc 
 Publishing == DOMAIN inflight
 Live(c) == c = 0 \/ c \notin ctxc
 
-Subscribe(key, t, c, r) ==
+Subscribe(key, t, c, auto, r) ==
   /\ Publishing = {}
   /\ \/ /\ r = "ok" /\ ~\E s \in reg : s.key = key /\ s.t = t
-        /\ reg' = reg \cup {[key |-> key, t |-> t, ctx |-> c]}
+        /\ reg' = reg \cup {[key |-> key, t |-> t, ctx |-> c, auto |-> auto]}
         /\ UNCHANGED <<inflight, queue, ctxc, hist>>
      \/ /\ r = "panic" /\ \E s \in reg : s.key = key /\ s.t = t
         /\ UNCHANGED vars
@@ -52,6 +53,12 @@ Unsubscribe(key, t, r) ==
         /\ UNCHANGED <<inflight, queue, ctxc, hist>>
      \/ /\ r = "panic" /\ ~\E s \in reg : s.key = key /\ s.t = t
         /\ UNCHANGED vars
+
+\* SubscribeCancel's goroutine: once the subscription's context is cancelled the library unsubscribes it
+AutoUnsub(s) ==
+  /\ Publishing = {} /\ s \in reg /\ s.auto /\ ~Live(s.ctx)
+  /\ reg' = reg \ {s}
+  /\ UNCHANGED <<inflight, queue, ctxc, hist>>
 
 Eligible(key, vt) == {s \in reg : s.key = key /\ Live(s.ctx) /\ Accepts(EType[s.t], vt)}
 
